@@ -43,7 +43,7 @@ func levels() []level {
 		return []level{
 			{"k1-full", full, 1, true, true},
 			{"k2-full", full, 2, true, true},
-			{"k3-full/dense,a~b", with(full, func(a *Alphabet) { a.DenseDates, a.SymVal = true, true }), 3, true, false},
+			{"k3-full/dense,a~b", with(full, func(a *Alphabet) { a.DenseDates, a.SymVal = true, true }), 3, false, false},
 			{"k4-tag,{a,a b&c|d},del@A,t1/dense,A~B", with(full, func(a *Alphabet) {
 				a.Attrs, a.Vals, a.DelSigners, a.DelRanks, a.DenseDates, a.SymSig = 1, 2, 1, 1, true, true
 				a.valMap = []int{0, 2}
@@ -210,6 +210,18 @@ func (r *runner) report(lv string, b *built, arrival []int, ck *checker) {
 	}
 }
 
+// feedError records a failure to index the blobs of a case, after seeing it 5 more times.
+func (r *runner) feedError(lv string, b *built, arrival []int, scn string, corpus bool, err error) {
+	for i := 0; i < 5; i++ {
+		if _, _, err2 := b.feed(arrival, corpus); err2 == nil {
+			r.res.EngineError("indexing error did not reproduce: case %s arrival %v: %v", b.c, arrival, err)
+			return
+		}
+	}
+	r.res.Violate(r.res.Scenario(scn), "C07|"+scn+"|ReceiveBlob|error", fmt.Sprintf("claims {%s}, arrival %s: %v", b.c, arrivalText(arrival), err),
+		replayCase{Level: lv, Case: b.c, CaseText: b.c.String(), Arrival: arrival, Scenario: scn})
+}
+
 func (r *runner) descr(lv string, b *built, arrival []int, ck *checker) {
 	sc := r.res.Scenario(ck.scn)
 	sc.States++
@@ -257,8 +269,7 @@ func (r *runner) oneCase(lv level, c Case) {
 			// corpus attached before the first blob
 			x, corp, err := b.feed(arrival, true)
 			if err != nil {
-				r.res.Violate(scI, "C07|"+scInc+"|ReceiveBlob|error", fmt.Sprintf("claims {%s}, arrival %s: %v", c, arrivalText(arrival), err),
-					replayCase{Level: lv.Name, Case: c, CaseText: c.String(), Arrival: arrival, Scenario: scInc})
+				r.feedError(lv.Name, b, arrival, scInc, true, err)
 				return
 			}
 			scI.Executions++
@@ -285,8 +296,7 @@ func (r *runner) oneCase(lv level, c Case) {
 				cur = scLive
 				xl, _, err := b.feed(arrival, false)
 				if err != nil {
-					r.res.Violate(scL, "C07|"+scLive+"|ReceiveBlob|error", fmt.Sprintf("claims {%s}, arrival %s: %v", c, arrivalText(arrival), err),
-						replayCase{Level: lv.Name, Case: c, CaseText: c.String(), Arrival: arrival, Scenario: scLive})
+					r.feedError(lv.Name, b, arrival, scLive, false, err)
 					return
 				}
 				scL.Executions++
